@@ -99,14 +99,22 @@ func runC05(c *Ctx) {
 
 	a := &anchors{c: c, rule: "C05.R1"}
 	nnr := a.fn("rules", "NewNetworkRule")
-	ls := a.method("rules", "NetworkRule", "loadShortcut")
+	// the loader is an internal step of the constructor: when it exists under its familiar name it
+	// is expanded by name, otherwise it is a new helper and transparent anyway
+	ls := c.P.Method("rules", "NetworkRule", "loadShortcut")
 	match := a.method("rules", "NetworkRule", "Match")
 	if a.bad {
 		return
 	}
+	lsRoots := []*ssa.Function{nnr}
+	var inlLS []string
+	if ls != nil {
+		lsRoots = append(lsRoots, ls)
+		inlLS = append(inlLS, FuncName(ls))
+	}
 	// roles: mask extractor / regex extractor = callees of loadShortcut func(string) string
 	var extractors []*ssa.Function
-	for _, gf := range groupFuncs(c.P, ls) {
+	for _, gf := range groupFuncs(c.P, lsRoots...) {
 		eachInstr(gf, func(_ *ssa.BasicBlock, in ssa.Instruction) {
 			if ci, ok := in.(ssa.CallInstruction); ok {
 				if cal := ci.Common().StaticCallee(); cal != nil && c.P.IsLibFunc(cal) && !c.P.IsNewHelper(cal) && cal.Signature.Recv() == nil && cal.Signature.Params().Len() == 1 && cal.Signature.Results().Len() == 1 &&
@@ -135,7 +143,7 @@ func runC05(c *Ctx) {
 		}
 	}
 	if maskX == nil || regexX == nil {
-		c.Fail("C05.R1", "anchor:shortcut extractors", ls.Pos(), fmt.Sprintf("unresolved anchor by role (mask extractor=%v regex extractor=%v)", maskX != nil, regexX != nil))
+		c.Fail("C05.R1", "anchor:shortcut extractors", nnr.Pos(), fmt.Sprintf("unresolved anchor by role (mask extractor=%v regex extractor=%v)", maskX != nil, regexX != nil))
 		return
 	}
 	c.Fn(FuncName(maskX), FuncName(regexX))
@@ -179,18 +187,20 @@ func runC05(c *Ctx) {
 	// ---------- R2 ----------
 	{
 		g := NewGate(c.P)
-		g.Inline = inlineOnly()
+		g.Inline = inlineOnly(inlLS...)
+		g.Pure[FuncName(maskX)] = true
+		g.Pure[FuncName(regexX)] = true
 		s := g.Eval(nnr)
 		lastStore, callIdx := -1, -1
 		for i, ef := range s.Effects {
 			if ef.Kind == "store" && ef.Addr.Op == "faddr" && ef.Addr.Aux == "pattern" {
 				lastStore = i
 			}
-			if ef.Kind == "call" && ef.Call.Aux == calleeName(ls) {
+			if ef.Kind == "store" && ef.Addr.Op == "faddr" && ef.Addr.Aux == "Shortcut" && callIdx < 0 {
 				callIdx = i
 			}
 		}
-		c.Check(callIdx > lastStore && callIdx >= 0, "C05.R2", "NewNetworkRule: shortcut computed after the last rewrite of the pattern", nnr.Pos(), "no store to the pattern field follows the call of loadShortcut",
+		c.Check(callIdx > lastStore && callIdx >= 0, "C05.R2", "NewNetworkRule: shortcut computed after the last rewrite of the pattern", nnr.Pos(), "no store to the pattern field follows the store of the shortcut",
 			"the shortcut is extracted before the pattern is rewritten (example.org/* becomes example.org^ but the shortcut stays \"example.org/\", which http://example.org does not contain)")
 		bad := ""
 		for _, w := range fieldWrites(c.P, "rules", "NetworkRule", "pattern") {
@@ -210,9 +220,26 @@ func runC05(c *Ctx) {
 		if irr := c.P.Method("rules", "NetworkRule", "IsRegexRule"); irr != nil {
 			g.Pure[FuncName(irr)] = true
 		}
-		s := g.Eval(ls)
+		if irp := c.P.Func("rules", "isRegexPattern"); irp != nil {
+			g.Pure[FuncName(irp)] = true
+		}
+		g.Inline = inlineOnly(inlLS...)
+		s := g.Eval(nnr)
 		u := g.U
-		f := g.ParamExprs(ls)[0]
+		// the rule under construction and the final value of its pattern
+		var f, patFinal *E
+		for _, ef := range s.Effects {
+			if ef.Kind == "store" && ef.Addr.Op == "faddr" && ef.Addr.Aux == "pattern" {
+				f = ef.Addr.Args[0]
+			}
+		}
+		if f != nil {
+			for k, v := range s.Mem {
+				if strings.HasSuffix(k, u.mk("faddr", "pattern", nil, f).key) {
+					patFinal = v
+				}
+			}
+		}
 		bad := ""
 		n := 0
 		for _, ef := range s.Effects {
@@ -224,6 +251,9 @@ func runC05(c *Ctx) {
 				if u.bdd.And(cond, ef.Cond) == False {
 					continue
 				}
+				if sv, isS := leaf.StrVal(); isS && sv == strings.ToLower(sv) {
+					continue // a constant without upper-case letters (the empty shortcut)
+				}
 				if leaf.Op != "call" || leaf.Aux != "strings.ToLower" {
 					bad = "on some path the stored shortcut is not lower-cased (" + clip(u.Show(leaf), 80) + " when " + clip(u.ShowBool(cond), 120) + "), but the pre-check searches the lower-cased URL: an upper-case letter in the shortcut can never be found"
 					continue
@@ -231,7 +261,8 @@ func runC05(c *Ctx) {
 				// derived from the rule's own pattern
 				okSrc := true
 				for src := range u.Leaves(leaf.Args[0]) {
-					if !(src.Op == "call" && (src.Aux == calleeName(maskX) || src.Aux == calleeName(regexX)) && src.Args[0].Op == "field" && src.Args[0].Aux == "pattern" && src.Args[0].Args[0] == f) {
+					isPat := len(src.Args) > 0 && ((src.Args[0].Op == "field" && src.Args[0].Aux == "pattern" && src.Args[0].Args[0] == f) || (patFinal != nil && src.Args[0] == patFinal))
+					if !(src.Op == "call" && (src.Aux == calleeName(maskX) || src.Aux == calleeName(regexX)) && isPat) {
 						okSrc = false
 					}
 				}
@@ -243,7 +274,7 @@ func runC05(c *Ctx) {
 		if n == 0 {
 			bad = "the shortcut is never stored"
 		}
-		c.Check(bad == "", "C05.R3", "loadShortcut: Shortcut = ToLower(extractor(f.pattern)) on every path", ls.Pos(), fmt.Sprintf("%d store site(s)", n), bad)
+		c.Check(bad == "", "C05.R3", "NewNetworkRule: Shortcut = ToLower(extractor(pattern)) on every path", nnr.Pos(), fmt.Sprintf("%d store site(s)", n), bad)
 	}
 	{
 		g := NewGate(c.P)
